@@ -63,11 +63,12 @@ def float_conv(t, v) -> Optional[float]:
 
 
 def float_verdict(t, v) -> str:
-    """'in' | 'out' | 'unspecified' (explicit infinities: the statement only speaks of overflow)"""
+    """'in' | 'out'. An accepted value reads back as the nearest representable FINITE value, so an explicit infinity cannot
+    be accepted either (the quantifier lists +-inf among the boundary values)."""
     if not isinstance(v, (int, float)):
         return "out"
     if isinstance(v, float) and math.isinf(v):
-        return "unspecified"
+        return "out"
     x = float_conv(t, v)
     if x is None or math.isinf(x):
         return "out"
@@ -523,6 +524,55 @@ def check_disable_blocks(mod, col: Collector, maxlen: int) -> int:
     col.n += 1
     if not contextvars.copy_context().run(with_form):
         col.problems.append({"kind": "validation-state", "sequence": "with-block left by exception", "open_blocks": 0, "validation_on": False})
+
+    # library calls that switch validation off for their own bookkeeping (Client.send_message fills the header that way): the
+    # caller never opened a block, so validation is in force after the call - however the call ended
+    def library_calls():
+        from .. import clx
+        import ctypes as _ct
+
+        class Plain(_ct.Structure):  # no type_id: send_message fails while it builds the header
+            _fields_ = [("a", _ct.c_int)]
+
+        class HalfDef(_ct.Structure):  # type_id but a type_hash that raises
+            _fields_ = [("a", _ct.c_int)]
+            type_id = 1234
+
+            @property
+            def type_hash(self):
+                raise AttributeError("boom")
+
+        out = []
+        sp = clx.ScriptedPeer(timecode=False)
+        try:
+            c = sp.client
+            for label, action in (("send_message(object without type_id)", lambda: c.send_message(Plain())),
+                                  ("send_message(object whose type_hash raises)", lambda: c.send_message(HalfDef())),
+                                  ("send_message(good message)", lambda: c.send_message(mod.MDF_VAL2())),
+                                  ("send_message(bad destination)", lambda: c.send_message(mod.MDF_VAL2(), dest_mod_id=-1)),
+                                  ("send_signal", lambda: c.send_signal(1234)),
+                                  ("send_message after the peer has gone", None)):
+                if action is None:
+                    sp.peer.reset()
+                    action = lambda: c.send_message(mod.MDF_VAL2())
+                try:
+                    action()
+                except BaseException:
+                    pass
+                out.append((label, validation_is_on()))
+        finally:
+            sp.close()
+        return out
+
+    import warnings
+
+    with warnings.catch_warnings():
+        warnings.simplefilter("ignore")
+        results = contextvars.copy_context().run(library_calls)
+    for label, on in results:
+        col.n += 1
+        if not on:
+            col.problems.append({"kind": "validation-state", "sequence": f"after {label}", "open_blocks": 0, "validation_on": False})
     return count
 
 
